@@ -376,9 +376,28 @@ def hoist_obligations(ctx: Ctx, I: Interp) -> None:
         return ({ps[0]: x, "lib_prefix": lp, "include_version": iv}, None)
 
     # ---- the head search loop ----------------------------------------------------------------------------------
+    # (the loop is located by what it iterates - the children of the <html> copy - wherever a refactoring has put it)
+    hkey: Any = ("HTMLDocument._hoist_head_content", 0)
+    cfg0 = Config()
+    cfg0.opaque_all = True
+    cfg0.coarse_counts = True
+    cfg0.loop_effects = False
+    found_key = None
+    for l0 in I.run_function(CORE, "HTMLDocument._hoist_head_content", mk, cfg0):
+        for rec0 in l0.run.loops:
+            b0 = rec0.iter_value
+            d0 = getattr(b0, "iter_descr", None)
+            while d0 is not None and d0[0] in ("enumerate",):
+                b0 = d0[1]
+                d0 = getattr(b0, "iter_descr", None)
+            s0 = b0.meta.get("copy_of") if isinstance(b0, SObj) and b0.meta.get("copy_of") is not None else b0
+            if found_key is None and isinstance(s0, SObj) and (s0.meta.get("attr_of") or (None, None))[1] == "children":
+                found_key = rec0.__dict__.get("loop_key")
+    if found_key is not None:
+        hkey = found_key
     cfg = Config()
     cfg.opaque_all = True
-    cfg.stop_at_loop = ("HTMLDocument._hoist_head_content", 0)
+    cfg.stop_at_loop = hkey
     nb = 0
     for l in I.run_function(CORE, "HTMLDocument._hoist_head_content", mk, cfg):
         rec = getattr(l.run, "stop_loop_record", None)
@@ -418,7 +437,7 @@ def hoist_obligations(ctx: Ctx, I: Interp) -> None:
             continue
         x, lp, iv = l.run.__dict__["o"]
         n += 1
-        found = l.run.path.memo.get(("loop", ("HTMLDocument._hoist_head_content", 0)))
+        found = l.run.path.memo.get(("loop", hkey))
         for a_, c_ in l.run.path.memo.items():
             if isinstance(a_, tuple) and a_ and a_[0] == "next-found":
                 found = 1 if c_ == 0 else 0      # same coding as the loop choice: 0 = nothing found
